@@ -702,8 +702,8 @@ TOKEN_REPL = ['""', "\\", "\\#", "-1", "256", "65536", "4294967296", "x", "nan",
               LONGDATA]
 ZONE_TOKEN_REPL = TOKEN_REPL + ["@", "$TTL", "$ORIGIN", "$INCLUDE", "$GENERATE", "IN", "CH", "ANY", "1-2", "a\\300"]
 MSG_TOKEN_REPL = TOKEN_REPL + ["@", "XX", "FLAG16", "FLAG77", "IN", "NONE", "ANY", "UPDATE", "99", "a\\300"]
-CHARS_Q = ["\\", '"', " ", "(", ")", ";", "\n", ".", "@", "$", "0", "9", "é"]
-CHARS_T = CHARS_Q + ["-", "/", "\t", "{", ",", "=", ":", "。", "#", "a"]
+CHARS_Q = ["\\", '"', " ", "(", ")", ";", "\n", ".", "@", "$", "0", "9", "é", "-"]
+CHARS_T = CHARS_Q + ["/", "\t", "{", ",", "=", ":", "。", "#", "a"]
 
 JUNK_LINES = ["out.other. 300 IN A 10.0.0.9", "out.other. 300 IN A 10.0.0.9 ; not ours", '""', '"" 300 IN A 10.0.0.1', '"', "(", ")", "\\", "@", "$", "$TTL", "$TTL 1 2", "$TTL x", "$ORIGIN",
               "$ORIGIN rel", "$ORIGIN example. x", "$INCLUDE", "$INCLUDE /nonexistent/verif-c04", "$GENERATE",
